@@ -50,7 +50,7 @@ PROPS = {
         "assumptions": ["coherent specs as in DESIGN.md section 2"],
     },
     "C04": {
-        "topics": ["fld", "msg", "enc", "pref"],
+        "topics": ["adv", "fld", "msg", "enc", "pref"],
         "nontrivial": lambda c, i: ("unpack" in c or ".dec" in c),
         "rule": FLD_MSG_RULE + "; plus the decoder-level adversarial cases of C06/C07 (BER long forms with 0..127 length bytes, lengths >= 2^31 and >= 2^63, "
                 "negative lengths, every short prefix string); every implementation run is a child process under ulimit -v and a timeout; non-trivial = distinct decode case",
